@@ -71,7 +71,8 @@ def forbidden_scan():
 
 def input_hash():
     h = hashlib.sha256()
-    for f in coq_sources() + [os.path.join(COQ, "_CoqProject"), os.path.join(OCAML, "driver.ml")]:
+    for f in coq_sources() + [os.path.join(COQ, "_CoqProject"), os.path.join(OCAML, "driver.ml")] \
+            + sorted(glob.glob(os.path.join(COQ, "selfcheck", "*.lines"))):
         h.update(f.encode())
         h.update(open(f, "rb").read())
     return h.hexdigest()
@@ -118,7 +119,15 @@ def build(verbose=False):
         if built.get("theories/Extract.v"):
             rc3, log3 = sh("ocamlfind ocamlopt -O3 -w -a model.mli model.ml driver.ml -o modelrun",
                            cwd=OCAML, timeout=600)
-        st = {"ok": all(built.values()) and rc3 == 0 and not forb, "built": built,
+        sc = {"ok": False, "error": "model runner not built"}
+        if rc3 == 0:
+            try:
+                import selfcheck
+                sc = selfcheck.selfcheck()
+            except Exception as e:
+                sc = {"ok": False, "error": "selfcheck crashed: %r" % (e,)}
+        st = {"ok": all(built.values()) and rc3 == 0 and not forb and sc.get("ok", False), "built": built,
+              "selfcheck": sc,
               "log": (log2[-6000:] if not all(built.values()) else "") + (log3 if rc3 else ""),
               "forbidden": forb, "hash": hsh, "seconds": time.time() - t0, "runner_ok": rc3 == 0,
               "cached": False}
